@@ -295,8 +295,75 @@ def raise_accept(case: dict, inst: Any) -> None:
             f"{inst.flows.tolist()}, distances={inst.distances.tolist()}")
 
 
+# ----------------------------------------------------------------------------
+# sizes around and beyond 256 (QAPLIB goes up to n = 256, tai256c; the
+# constructor documents no size limit): matrices from an arithmetic formula,
+# so that a case stays a handful of integers
+# ----------------------------------------------------------------------------
+
+@st.composite
+def large_cases(draw: Any) -> dict:
+    n = draw(st.sampled_from([64, 127, 128, 129, 200, 255, 256, 257, 258,
+                              300]))
+    return {"n": n, "mod": draw(st.sampled_from([2, 7, 100, 251, 1000])),
+            "a": draw(st.integers(1, 50)), "b": draw(st.integers(1, 50)),
+            "c": draw(st.integers(0, 9)), "seed": draw(st.integers(0, 999)),
+            "via": draw(st.sampled_from(["constructor", "text"]))}
+
+
+def _large_matrix(n: int, a: int, b: int, c: int, mod: int) -> list:
+    return [[0 if i == j else (a * i + b * j + c * i * j + a) % mod
+             for j in range(n)] for i in range(n)]
+
+
+def check_large(ctx: Ctx, case: dict) -> None:
+    import random
+
+    import numpy as np
+    from moptipyapps.qap.instance import Instance
+    from moptipyapps.qap.objective import QAPObjective
+    n, mod = case["n"], case["mod"]
+    flows = _large_matrix(n, case["a"], case["b"], case["c"], mod)
+    dists = _large_matrix(n, case["b"], case["c"] + 1, case["a"], mod)
+    rlb, rub = o.qap_rearrangement_bounds(flows, dists)
+    if case["via"] == "constructor":
+        inst = sut(f"qap Instance() for n={n}", Instance,
+                   np.array(dists, dtype=np.int64),
+                   np.array(flows, dtype=np.int64))
+    else:
+        toks = qaplib_tokens(n, flows, dists)
+        lines = [toks[0]] + [" ".join(toks[1 + r * n:1 + (r + 1) * n])
+                             for r in range(2 * n)]
+        inst = sut(f"from_qaplib_stream for n={n}",
+                   Instance.from_qaplib_stream, iter(lines))
+    require(inst.n == n, lambda: f"n={inst.n}, expected {n}")
+    require(inst.flows.tolist() == flows
+            and inst.distances.tolist() == dists,
+            f"stored matrices differ from the given ones (n={n})")
+    lb, ub = inst.lower_bound, inst.upper_bound
+    require(rlb <= lb <= ub <= rub, lambda: f"n={n}: bounds [{lb}, {ub}] "
+            f"outside the rearrangement bounds [{rlb}, {rub}]")
+    for arr in (inst.flows, inst.distances):
+        require(o.dtype_limit(arr.dtype.name)[1] >= ub,
+                lambda: f"n={n}: stored as {arr.dtype.name}, upper bound "
+                f"{ub}")
+    f = QAPObjective(inst)
+    rnd = random.Random(case["seed"])  # noqa: S311 - part of the case
+    p = list(range(n))
+    rnd.shuffle(p)
+    x = _tour(p, "space")
+    got = sut("QAPObjective.evaluate", f.evaluate, x)
+    want = o.qap_value(flows, dists, p)
+    require(type(got) is int and got == want,
+            lambda: f"n={n}: evaluate={got!r}, double sum={want}")
+    require(lb <= got <= ub, lambda: f"n={n}: {got} outside [{lb}, {ub}]")
+    ctx.rec.case(case, nontrivial=True, labels=[
+        f"large:n={n}", f"large:via={case['via']}",
+        f"large:dtype={inst.flows.dtype.name}"])
+
+
 SUBS = {"objective": check_objective, "loader": check_loader,
-        "reject": check_reject}
+        "reject": check_reject, "large": check_large}
 SUBS["fuzz_qaplib"] = fuzz.make_sub("qaplib")
 
 
@@ -308,5 +375,7 @@ def run(ctx: Ctx) -> None:
               quick=600, thorough=16 * 2500)
     ctx.given("reject", reject_cases(max_n), check_reject,
               quick=200, thorough=16 * 800)
+    ctx.given("large", large_cases(), check_large, quick=12,
+              thorough=16 * 40, shrink=False)
     fuzz.run_target(ctx, "qaplib", quick_runs=120_000,
                     thorough_runs=16 * 1_000_000)
